@@ -229,13 +229,22 @@ func GenModel(rng *rand.Rand, o GenOpts) *Model {
 			t.MetaNil = true
 		}
 		if o.Modular {
+			// module, file and name are drawn independently (their orders need not agree); a file may be
+			// missing although a module is set, and the other way round
+			files := []string{"", "a.fga", "b.fga", "m/x.fga", "z.fga", "core/f.fga"}
 			t.Module = pick(rng, modules)
-			t.File = t.Module + "/" + []string{"a", "b"}[rng.Intn(2)] + ".fga"
+			t.File = pick(rng, files)
+			if rng.Intn(8) == 0 {
+				t.Module = ""
+			}
 			t.MetaNil = false
 			for i := range t.Rels {
-				if rng.Intn(3) == 0 { // relation contributed by an extension
+				if rng.Intn(2) == 0 { // relation contributed by an extension
 					t.Rels[i].Module = pick(rng, modules)
-					t.Rels[i].File = t.Rels[i].Module + "/ext.fga"
+					t.Rels[i].File = pick(rng, files)
+					if rng.Intn(8) == 0 {
+						t.Rels[i].Module = ""
+					}
 					t.Rels[i].NoMeta = false
 				}
 			}
@@ -246,7 +255,10 @@ func GenModel(rng *rand.Rand, o GenOpts) *Model {
 		for i := range m.Conds {
 			m.Conds[i].NoMeta = false
 			m.Conds[i].Module = pick(rng, modules)
-			m.Conds[i].File = m.Conds[i].Module + "/c.fga"
+			m.Conds[i].File = pick(rng, []string{"", "a.fga", "b.fga", "z.fga"})
+			if rng.Intn(8) == 0 {
+				m.Conds[i].Module = ""
+			}
 		}
 	}
 	return m
